@@ -807,8 +807,20 @@ def model_region(d, reg=None):
 
 class Check(PropertyCheck):
     id = 'C18'
-    lean_targets = ['RegionsVerif.Props.C18']
-    namespaces = ['RegionsVerif.Props.C18']
+    lean_targets = ['RegionsVerif.Props.C18', 'RegionsVerif.Bridge.InlineGlueC18']
+    namespaces = ['RegionsVerif.Props.C18', 'RegionsVerif.Bridge.InlineGlueC18']
+
+    def _inline_glue(self):
+        # tie T: normal forms of the glue methods (tools/inlineglue.py, group C18)
+        import importlib.util, os
+        from .common import VERIF
+        spec = importlib.util.spec_from_file_location('inlineglue', os.path.join(VERIF, 'tools', 'inlineglue.py'))
+        mod = importlib.util.module_from_spec(spec)
+        spec.loader.exec_module(mod)
+        return mod.main(['C18'])
+
+    def translate(self):
+        return self._inline_glue()
     level = 'proof'
     parallel = True
     rule = ('circle, ellipse, rectangle, polygon (simple and self-intersecting), regular polygon and the three annuli x sizes 1e-3..1e6 '
